@@ -683,6 +683,52 @@ func (OptBytes) GetEncodedSize(b []byte) int {
 	return 2 + (int(b[0])<<8 | int(b[1]))
 }
 
+// UserLE: a user-defined fixed-width little-endian integer encoder (the bytes
+// encode.I8/I16/I32/I64 write) whose Decode returns a defined type.
+type UserLE struct{ Kind string }
+
+type usrI8 int8
+type usrI16 int16
+type usrI32 int32
+type usrI64 int64
+
+func (u UserLE) size() int {
+	switch u.Kind {
+	case "i8":
+		return 1
+	case "i16":
+		return 2
+	case "i32":
+		return 4
+	}
+	return 8
+}
+func (u UserLE) Encode(d interface{}) []byte {
+	x := uint64(reflect.ValueOf(d).Int())
+	b := make([]byte, u.size())
+	for i := range b {
+		b[i] = byte(x >> (8 * uint(i)))
+	}
+	return b
+}
+func (u UserLE) Decode(b []byte) (int, interface{}) {
+	var x uint64
+	for i := 0; i < u.size(); i++ {
+		x |= uint64(b[i]) << (8 * uint(i))
+	}
+	switch u.Kind {
+	case "i8":
+		return 1, usrI8(int8(x))
+	case "i16":
+		return 2, usrI16(int16(x))
+	case "i32":
+		return 4, usrI32(int32(x))
+	}
+	return 8, usrI64(int64(x))
+}
+func (u UserLE) GetSize(d interface{}) int   { return u.size() }
+func (u UserLE) GetEncodedSize(b []byte) int { return u.size() }
+
 // PassBytes: a user-defined variable-size encoder that hands the caller's
 // bytes through unchanged (C20: the builder must copy them).
 type PassBytes struct{}
